@@ -101,7 +101,9 @@ func g04All() []g04Vec { g04Once.Do(g04Init); return g04Vecs }
 
 // breakout prefixes. {text, forAttr}: attribute vectors need to land in an
 // attribute-name position; tag/markup vectors in element content.
-var g04TagPrefixes = []string{"", "abc ", "x>", "x >", "x'>", "x\">", "x`>", "'>", "\">", "`>", "x' >", "x\" />", "</b>", "--></style>"}
+var g04TagPrefixes = []string{"", "abc ", "x>", "x >", "x'>", "x\">", "x`>", "'>", "\">", "`>", "x' >", "x\" />", "</b>", "--></style>",
+	// an end tag closed after white space, a slash or a quoted value right before the vector
+	"\"></a >", "'></p\n>", "x></b/>", "\"></a b='c'>", "</i\t>", "x></td >"}
 
 type g04AttrPrefix struct {
 	text   string
